@@ -100,6 +100,7 @@ int KnownFindings::match(const std::string& prop, VKind kind, const std::string&
 // ---------------------------------------------------------------- relevance of violation kinds per property
 bool kind_relevant(const std::string& p, VKind k) {
     if (k == V_HARNESS) return true;
+    if (const char* dbg = getenv("URISIM_DEBUG_RELEVANT")) if (std::string(dbg) == vkind_name(k)) return true;   // builder's aid: look at an out-of-scope anomaly
     if (k == V_CRASH || k == V_WILD_ACCESS) return true;
     auto in = [&](std::initializer_list<VKind> l) { for (auto x : l) if (x == k) return true; return false; };
     if (p == "C03") return in({V_READ_OUT_OF_WINDOW, V_STORE_INPUT_TEXT, V_RESULT_DIFFERS, V_LEAK_AFTER_FAILURE, V_LEAK_AT_END, V_DOUBLE_FREE, V_BAD_FREE, V_FOREIGN_FREE, V_TOUCH_FREED, V_WRONG_RC, V_NO_RECOVERY, V_HEAP_OVERFLOW});
@@ -158,7 +159,7 @@ Plan generate_plan(const std::string& prop, unsigned long long vseed, unsigned l
     hc.text.max_len = thorough ? 64 : 48;
     hc.text.max_segs = thorough && r.chance(300) ? 7 : 5;
     hc.text.mutate_per1024 = r.pick(std::vector<int>{0, 60, 120, 250});
-    if (thorough && r.chance(20)) { hc.text.long_mode = true; hc.text.max_len = 2000; }
+    if (r.chance(thorough ? 20 : 6)) { hc.text.long_mode = true; hc.text.max_len = 2000; }   // a few long inputs (parser recursion depth, int lengths)
     hc.max_ops = thorough ? 12 : 9;
     if (prop == "C14") {
         int k = r.range(0, 9);
@@ -184,7 +185,7 @@ Plan generate_plan(const std::string& prop, unsigned long long vseed, unsigned l
         if (r.chance(350)) add_query_ops(r, p.ops, hc.nmgrs, false);
         if (inc) {   // aim a few in-place ops at the incomplete manager too
             int im = (int)p.mgrs.size() - 1;
-            for (auto& o : p.ops) if ((o.kind == OP_NORMALIZE || o.kind == OP_MAKEOWNER) && r.chance(300)) o.mgr = im;
+            for (auto& o : p.ops) if ((o.kind == OP_NORMALIZE || o.kind == OP_MAKEOWNER || o.kind == OP_FREE) && r.chance(300)) o.mgr = im;
         }
         if (r.chance(300)) {   // one run in three also sweeps the allocation failures of one call (ledger oracles only)
             std::vector<int> elig;
@@ -192,7 +193,7 @@ Plan generate_plan(const std::string& prop, unsigned long long vseed, unsigned l
             if (!elig.empty()) { int t = r.pick(elig); p.ops[(size_t)t].fail_k = K_ALL; p.target = t; }
         }
     } else if (prop == "C03") {
-        gen::TextCfg tc = hc.text; tc.mutate_per1024 = r.pick(std::vector<int>{0, 200, 400, 700}); tc.max_len = thorough ? 64 : 40;
+        gen::TextCfg tc = hc.text; tc.mutate_per1024 = r.pick(std::vector<int>{0, 200, 400, 700}); if (!tc.long_mode) tc.max_len = thorough ? 64 : 40;
         Op o; o.kind = OP_PARSE; o.a = 0;
         if (r.chance(200)) {   // IP-literal soup
             static const std::vector<std::string> parts = {":", "::", "1", "ffff", "0", ".", "1.2.3.4", "255", "256", "v1.", "a", "]", "[", "%", "12345", "44.1", "::44.1", "1:2:3:4:5:6:7:8", "00", "."};
